@@ -12,44 +12,6 @@ import (
 
 // ---- reference from the statement ----
 
-// c07Fields cuts the comment and splits on spaces and tabs.
-func c07Fields(line []byte) (fields []string) {
-	end := len(line)
-	for i := 0; i < len(line); i++ {
-		if line[i] == '#' {
-			end = i
-
-			break
-		}
-	}
-	lo := -1
-	for i := 0; i <= end; i++ {
-		sep := i == end || line[i] == ' ' || line[i] == '\t'
-		switch {
-		case !sep && lo < 0:
-			lo = i
-		case sep && lo >= 0:
-			fields = append(fields, string(line[lo:i]))
-			lo = -1
-		}
-	}
-
-	return fields
-}
-
-func c07EqNames(got []string, want []string) bool {
-	if len(got) != len(want) {
-		return false
-	}
-	for i := range got {
-		if got[i] != want[i] {
-			return false
-		}
-	}
-
-	return true
-}
-
 // c07Check runs UnmarshalText on line and compares with the reference.
 // It returns the record when the line was accepted.
 func c07Check(line []byte) (rec *Record, accepted bool) {
